@@ -85,13 +85,13 @@ func refOfDesc(fileIdx map[string]int, d protoreflect.Descriptor) ref {
 type goRef struct {
 	gen      *protogen.Plugin
 	fileIdx  map[string]int
-	names    map[string]string            // ref.key()+"|"+kind -> protogen name
-	types    map[string]string            // field ref.key() -> reference struct field type (qualifier = GoPackageName of the defining file)
-	srcIdent map[int]map[string]bool      // file -> identifiers declared at package level / struct fields / consts in the generated source
-	srcField map[int]map[string]string    // file -> "Struct.Field" -> type expression in the generated source
-	imports  map[int]map[string][]string  // file -> import alias -> import paths (protoc-gen-go can emit one alias twice: `_`)
-	declBy   map[string]map[string]bool     // import path -> Go type identifiers declared there
-	pkgOf    map[string]string            // import path -> GoPackageName
+	names    map[string]string           // ref.key()+"|"+kind -> protogen name
+	types    map[string]string           // field ref.key() -> reference struct field type (qualifier = GoPackageName of the defining file)
+	srcIdent map[int]map[string]bool     // file -> identifiers declared at package level / struct fields / consts in the generated source
+	srcField map[int]map[string]string   // file -> "Struct.Field" -> type expression in the generated source
+	imports  map[int]map[string][]string // file -> import alias -> import paths (protoc-gen-go can emit one alias twice: `_`)
+	declBy   map[string]map[string]bool  // import path -> Go type identifiers declared there
+	pkgOf    map[string]string           // import path -> GoPackageName
 	files    map[int]*protogen.File
 	err      error
 }
@@ -123,7 +123,9 @@ func runProtogen(w wWorld, b *built, param string) *goRef {
 	for _, f := range gen.Files {
 		gr.pkgOf[string(f.GoImportPath)] = string(f.GoPackageName)
 	}
-	put := func(d protoreflect.Descriptor, kind, name string) { gr.names[refOfDesc(gr.fileIdx, d).key()+"|"+kind] = name }
+	put := func(d protoreflect.Descriptor, kind, name string) {
+		gr.names[refOfDesc(gr.fileIdx, d).key()+"|"+kind] = name
+	}
 	var msg func(m *protogen.Message)
 	decl := func(id protogen.GoIdent) {
 		p := string(id.GoImportPath)
